@@ -2,7 +2,7 @@
 from cvsym import checklib as CL
 def _zero(I, a): return 0
 STUBS = [('_ZN11colvarproxy11end_of_stepEv', _zero), ('_ZN14colvarbias_abf11calc_energyE', _zero)]
-FNS = ['h_c03_meta_offgrid', 'h_c03_restraints_moving', 'h_c03_restraints_staged', 'h_c03_extended', 'h_c03_abf', 'h_c03_histogram', 'h_c03_meta']
+FNS = ['h_c03_meta_offgrid', 'h_c03_restraints_moving', 'h_c03_restraints_staged', 'h_c03_extended', 'h_c03_abf', 'h_c03_histogram', 'h_c03_meta', 'h_c03_meta_keephills']
 def groups(tier):
     b = {'scenario': 'uninterrupted run of steps 0..N that writes its state at step K on the way (text and binary, enumerated) against: fresh proxy and module with the same configuration, state loaded, steps K..N; N = 2..4, every K in the stated set (including 0 and N); arbitrary real coordinates and total forces at every step',
          'objects': 'harmonic fixed / moving centres with accumulated work / linear; staged moving centres / changing force constant with accumulated work; extended-Lagrangian variable with a harmonic bias (running simulation); ABF / histogram (1 variable, 4 bins, the bin visited at each step enumerated among 2; ABF N = 2 quick, 3 thorough); histogram; metadynamics with explicit hills (useGrids off); metadynamics with grids whose last step is an excursion beyond the upper boundary'}
